@@ -395,6 +395,23 @@ const MANY_AUTHORS: u32 = 2100;
 
 fn run(ctx: &Ctx, report: &mut Report) {
     crate::util::silence_panics();
+    if ctx.shard == 12 % ctx.of {
+        report.evaluations += 1;
+        report.count("old_format_store_files", 1);
+        let case = json!({"old_format_peers": 2});
+        match crate::util::catch(|| super::oldfmt::check(2, "C18")) {
+            Err(p) => report.violation("no_panic", json!({"old_format": true}), case, format!("panic: {p}"), 0),
+            Ok(bad) => {
+                for (o, d) in bad {
+                    if o == "MACHINERY" {
+                        report.machinery_error(d);
+                    } else {
+                        report.violation(o, json!({"old_format": true}), case.clone(), d, 0);
+                    }
+                }
+            }
+        }
+    }
     for variant in 0u8..4 {
         let ordinal = (1u64 << 40) + 5 + 3 * variant as u64;
         if !ctx.mine(ordinal) {
@@ -458,6 +475,11 @@ fn run(ctx: &Ctx, report: &mut Report) {
 }
 
 fn replay(case: &Value) -> anyhow::Result<(bool, String)> {
+    if let Some(n) = case.get("old_format_peers").and_then(|n| n.as_u64()) {
+        let bad = crate::util::catch(|| super::oldfmt::check(n as u8, "C18")).map_err(|p| anyhow::anyhow!(p))?;
+        let out: String = bad.iter().map(|(o, d)| format!("FAILED {o}: {d}\n")).collect();
+        return Ok((!bad.is_empty(), format!("store file of the redb 2.x format\n{out}")));
+    }
     if let Some(m) = case.get("many_authors").and_then(|m| m.as_u64()) {
         let variant = case["variant"].as_u64().unwrap_or(3) as u8;
         return match catch(|| run_many_authors(m as u32, variant)) {
